@@ -75,7 +75,32 @@ def run_for(prop, tier):
                                      "what": h["what"], "backend": "kani/cbmc"})
             if not ok:
                 failed = re.findall(r"Failed Checks: (.*)", b)
+                # ask Kani for the concrete failing input (byte vectors of every kani::any()) and keep it in the replay file
+                cx = None
+                try:
+                    cmd2 = [c for c in cmd if not c.startswith("--harness") and c not in [x["name"] for x in hs]]
+                    cmd2 = cmd2[:2] + ["-Z", "concrete-playback", "--concrete-playback=print"] + cmd2[2:] + ["--harness", h["name"]]
+                    rc2, out2, _ = _run(cmd2, cwd, 1200)
+                    m2 = re.search(r"Concrete playback unit test for .*?```(.*?)```", out2, re.S)
+                    if m2:
+                        cx = {"kind": "kani concrete playback (Rust unit test calling the harness with these bytes)",
+                              "harness": h["name"], "test": m2.group(1).strip()[:4000],
+                              "replay": "paste into the harness crate and run `cargo kani playback -Z concrete-playback`"}
+                        # replay the bytes natively against the normally compiled real code (harnesses of the crate only)
+                        vecs = re.findall(r"vec!\[([0-9,\s]*)\]", m2.group(1))
+                        vecs = [v for v in vecs if v.strip()]
+                        if where == "crate" and vecs:
+                            os.environ["CARGO_TARGET_DIR"] = os.path.join(KANI_DIR, "target-native")
+                            rcb, outb, _ = _run(["cargo", "build", "--offline", "--bin", "replay"], KANI_DIR, 1800)
+                            exe = os.path.join(KANI_DIR, "target-native", "debug", "replay")
+                            if rcb == 0 and os.path.exists(exe):
+                                rcr, outr, _ = _run([exe, h["name"]] + [re.sub(r"\s+", "", v) for v in vecs], KANI_DIR, 120)
+                                cx["replayed_on_real_code"] = (rcr == 1)
+                                cx["replay_output"] = outr[-800:]
+                                cx["replay_cmd"] = "%s %s %s" % (exe, h["name"], " ".join(re.sub(r"\s+", "", v) for v in vecs))
+                except Exception:
+                    cx = None
                 res["violations"].append({"id": "kani:%s" % h["name"], "message": "; ".join(failed)[:500], "rendered": b[-1500:],
                                           "tags": [], "fn": None, "real": h["name"], "lines": [],
-                                          "counterexample": None})
+                                          "counterexample": cx})
     return res
